@@ -4,18 +4,23 @@
 (* taking a server from the channel, merging and exiting have no hook, so the     *)
 (* wrapper lets them run with priority.  `hist` is the sequence of KeyClient       *)
 (* completions [s, stage, o]; it is printed with the expected result at return.   *)
+(* The cancellation of the caller's context is a step of the schedule (stage        *)
+(* "cancel"); once the context is done every KeyClient call fails at once, without    *)
+(* a yield point: those completions run with priority and are not in `hist`.          *)
 EXTENDS KeyFetchPool, Sequences, SequencesExt, Json
 
 VARIABLE hist
 gvars == <<vars, hist>>
 
-Urgent(i) == w[i].pc \in {"take", "merge"}
+Urgent(i) == w[i].pc \in {"take", "merge"} \/ (ctx = "done" /\ w[i].pc \in {"direct", "notary"})
 Quiet == caller = "wait" /\ \A i \in Workers : ~Urgent(i)
 
 GInit == Init /\ hist = << >>
 
 GNext ==
   \/ \E i \in Workers : (Take(i) \/ Merge(i)) /\ UNCHANGED hist
+  \/ \E i \in Workers : ctx = "done" /\ (Direct(i, "ctx") \/ Notary(i, "ctx")) /\ UNCHANGED hist
+  \/ Quiet /\ Cancel /\ hist' = Append(hist, [s |-> "", stage |-> "cancel", o |-> ""])
   \/ \E i \in Workers, o \in DirectOutcomes :
         Quiet /\ Direct(i, o) /\ hist' = Append(hist, [s |-> w[i].s, stage |-> "direct", o |-> o])
   \/ \E i \in Workers, o \in NotaryOutcomes :
@@ -25,5 +30,5 @@ GNext ==
 GSpec == GInit /\ [][GNext]_gvars
 
 Emit == returned => PrintT(ToJson([servers |-> SetToSeq(Servers), local |-> HasLocal, keyids |-> SetToSeq(KeyIds),
-                                   steps |-> hist, succ |-> SetToSeq(succ)]))
+                                   steps |-> hist, succ |-> SetToSeq(succ), mode |-> mode]))
 =============================================================================
